@@ -56,6 +56,8 @@ type harnessSpec struct {
 	Reach      []string
 	MaxSteps   int
 	Replace    map[string]string
+	Tags       string
+	Prog       *ssa.Program
 }
 
 type item struct {
@@ -150,29 +152,41 @@ func run() int {
 		overlay[filepath.Join(*flagRepo, d, "zz_verif_rt.go")] = []byte(strings.Replace(string(rtTmpl), "PKGNAME", name, 1))
 	}
 	sort.Strings(patterns)
-	cfg := &packages.Config{
-		Mode:       packages.LoadAllSyntax,
-		Dir:        *flagRepo,
-		Overlay:    overlay,
-		BuildFlags: []string{"-tags=verif", "-mod=mod"},
-		Env:        append(os.Environ(), "GOFLAGS=-mod=mod", "GOPROXY=off", "GOSUMDB=off", "GOTOOLCHAIN=local"),
-	}
-	initial, err := packages.Load(cfg, patterns...)
-	if err != nil {
-		return fatal(2, "packages.Load: %v", err)
-	}
-	nerr := 0
-	packages.Visit(initial, nil, func(p *packages.Package) {
-		for _, e := range p.Errors {
-			fmt.Fprintf(os.Stderr, "load error: %v\n", e)
-			nerr++
+	load := func(extraTags string) (*ssa.Program, []*ssa.Package, []*packages.Package, int) {
+		tags := "-tags=verif"
+		if extraTags != "" {
+			tags += "," + extraTags
 		}
-	})
+		cfg := &packages.Config{
+			Mode:       packages.LoadAllSyntax,
+			Dir:        *flagRepo,
+			Overlay:    overlay,
+			BuildFlags: []string{tags, "-mod=mod"},
+			Env:        append(os.Environ(), "GOFLAGS=-mod=mod", "GOPROXY=off", "GOSUMDB=off", "GOTOOLCHAIN=local"),
+		}
+		initial, err := packages.Load(cfg, patterns...)
+		if err != nil {
+			fmt.Fprintf(os.Stderr, "packages.Load: %v\n", err)
+			return nil, nil, nil, 1
+		}
+		nerr := 0
+		packages.Visit(initial, nil, func(p *packages.Package) {
+			for _, e := range p.Errors {
+				fmt.Fprintf(os.Stderr, "load error: %v\n", e)
+				nerr++
+			}
+		})
+		if nerr > 0 {
+			return nil, nil, nil, nerr
+		}
+		prog, pkgs := ssautil.AllPackages(initial, ssa.InstantiateGenerics)
+		prog.Build()
+		return prog, pkgs, initial, 0
+	}
+	prog, pkgs, initial, nerr := load("")
 	if nerr > 0 {
 		return fatal(2, "INCONCLUSIVE property=%s: harness or repository does not compile", prop)
 	}
-	prog, pkgs := ssautil.AllPackages(initial, ssa.InstantiateGenerics)
-	prog.Build()
 	tLoad := time.Since(t0)
 
 	// harness discovery
@@ -192,6 +206,34 @@ func run() int {
 				return fatal(2, "bad directives on %s: %v", fn.Name(), err)
 			}
 			specs = append(specs, sp)
+		}
+	}
+	tagProgs := map[string][]*ssa.Package{}
+	for _, sp := range specs {
+		sp.Prog = prog
+		if sp.Tags == "" {
+			continue
+		}
+		tp, ok := tagProgs[sp.Tags]
+		if !ok {
+			p2, pk2, _, nerr2 := load(sp.Tags)
+			if nerr2 > 0 {
+				return fatal(2, "INCONCLUSIVE property=%s: repository does not compile with tags %s", prop, sp.Tags)
+			}
+			_ = p2
+			tp = pk2
+			tagProgs[sp.Tags] = tp
+		}
+		found := false
+		for _, p := range tp {
+			if p != nil && p.Pkg.Path() == sp.Pkg.Pkg.Path() {
+				if fn := p.Func(sp.Fn.Name()); fn != nil {
+					sp.Fn, sp.Pkg, sp.Prog, found = fn, p, p.Prog, true
+				}
+			}
+		}
+		if !found {
+			return fatal(2, "INCONCLUSIVE property=%s: harness %s not found with tags %s", prop, sp.Fn.Name(), sp.Tags)
 		}
 	}
 	sort.Slice(specs, func(i, j int) bool { return specs[i].Fn.Name() < specs[j].Fn.Name() })
@@ -239,7 +281,7 @@ func run() int {
 		go func() {
 			defer wg.Done()
 			for idx := range ch {
-				r := runItem(prog, items[idx])
+				r := runItem(items[idx].H.Prog, items[idx])
 				results[idx] = r
 				if *flagVerbose {
 					mu.Lock()
@@ -350,6 +392,8 @@ func parseSpec(fn *ssa.Function, pkg *ssa.Package, rel string) (*harnessSpec, er
 			sp.LazyAll = true
 		case "nomerge":
 			sp.NoMerge = true
+		case "tags":
+			sp.Tags = strings.Join(f[1:], ",")
 		case "replace":
 			if len(f) != 3 {
 				return nil, fmt.Errorf("replace needs <function> <harness function>")
@@ -587,7 +631,15 @@ func report(prop string, specs []*harnessSpec, items []item, results []*itemResu
 			rp := ""
 			confirmed := false
 			detail := ""
-			if !*flagNoReplay {
+			if strings.HasPrefix(v.Msg, "asm ") && !*flagNoReplay {
+				// memory-safety / control-flow violation of the assembly text found by the interpreter:
+				// native execution cannot confirm a stray read; it is reported on the interpreter's evidence
+				dir := filepath.Join(*flagVerif, "out", "replay", prop)
+				os.MkdirAll(dir, 0o755)
+				rp = filepath.Join(dir, strings.NewReplacer(" ", "_", "=", "").Replace(r.Label)+fmt.Sprintf("_%d.asm.txt", vi))
+				os.WriteFile(rp, []byte(v.Msg+"\n"), 0o644)
+				confirmed, detail = true, v.Msg
+			} else if !*flagNoReplay {
 				rp, confirmed, detail = replay(prop, items[i], r, vi, v, overlay)
 				replayed++
 			}
@@ -753,11 +805,15 @@ func TestVerifReplay(t *testing.T) {
 	ovPath := filepath.Join(dir, base+".overlay.json")
 	ob, _ := json.Marshal(map[string]interface{}{"Replace": ov})
 	os.WriteFile(ovPath, ob, 0o644)
-	cmdline := fmt.Sprintf("cd %s && VERIF_REPLAY=%s go test -tags verif -vet=off -count=1 -overlay %s -run '^TestVerifReplay$' ./%s", *flagRepo, modelPath, ovPath, it.H.RelDir)
+	cmdline := fmt.Sprintf("cd %s && VERIF_REPLAY=%s go test -tags verif%s -vet=off -count=1 -overlay %s -run '^TestVerifReplay$' ./%s", *flagRepo, modelPath, map[bool]string{true: "," + it.H.Tags, false: ""}[it.H.Tags != ""], ovPath, it.H.RelDir)
 	os.WriteFile(filepath.Join(dir, base+".sh"), []byte("#!/bin/sh\nexport GOFLAGS=-mod=mod GOPROXY=off GOSUMDB=off GOTOOLCHAIN=local\n"+cmdline+"\n"), 0o755)
 	path = filepath.Join(dir, base+".sh")
 	for variant := 0; variant < 2; variant++ {
-		cmd := exec.Command("timeout", "300", "go", "test", "-tags", "verif", "-vet=off", "-count=1", "-overlay", ovPath, "-run", "^TestVerifReplay$", "./"+it.H.RelDir)
+		tagArg := "verif"
+		if it.H.Tags != "" {
+			tagArg += "," + it.H.Tags
+		}
+		cmd := exec.Command("timeout", "300", "go", "test", "-tags", tagArg, "-vet=off", "-count=1", "-overlay", ovPath, "-run", "^TestVerifReplay$", "./"+it.H.RelDir)
 		cmd.Dir = *flagRepo
 		cmd.Env = append(os.Environ(), "VERIF_REPLAY="+modelPath, fmt.Sprintf("VERIF_VARIANT=%d", variant), "GOFLAGS=-mod=mod", "GOPROXY=off", "GOSUMDB=off", "GOTOOLCHAIN=local")
 		out, err := cmd.CombinedOutput()
